@@ -41,6 +41,20 @@ FIRST = {
     'C15-m4': 'missed -> the C15 re-used object had other side lengths (and its kG0 computed) before',
     'C16-m3': 'missed -> nearly cylindrical cones (semi-vertex angle 1e-3..0.5 deg) are drawn in every shell check',
     'C19-m3': 'missed -> C19.panel sweeps the flight condition (Mach, density, speed) on one Panel without touching beta/gamma',
+    # round 3
+    'C01-m6': 'missed -> C01 hands the angles over as numpy scalars (float32, float64, int16, int64)',
+    'C02-m5': 'missed -> the constant pre-load of C02.k0 is as often one resultant alone (pure shear, uniaxial) or a cancelling pair as a generic triple',
+    'C03-m5': 'missed -> C03.const draws load triples that sum to exactly zero (Nxx = -Nyy; -3, 1, 2)',
+    'C03-m6': 'missed -> C03.state passes the per-point laminate table Fortran-ordered / as a transposed view / strided',
+    'C05-m5': 'missed -> C05 (and C06) draw structured matrices, tridiag(-1, 2, -1), whose columns sum to exactly zero; in C06 this exposed the genuine defect repaired in 1151e53',
+    'C08-m6': 'missed -> C08.assembly evaluates fint for float32 and integer-typed states',
+    'C09-m5': 'missed -> scripted force laws of C09 may return a residual with some NaN components (a law evaluated outside its domain)',
+    'C13-m6': 'missed -> C13.assembly compares the state-based kG0(c) with the stand-alone panels, some of them without prescribed loads',
+    'C15-m6': 'missed -> C15.closed_form switches force_orthotropic_laminate on (a cross-ply laminate must not notice)',
+    'C16-m5': 'missed -> C16.iso adds the third description: general model given the wall as (E11, nu, h)',
+    'C18-m6': 'missed -> C18.fext passes the evaluation points of ConeCyl.uvw as Fortran-ordered / transposed / mixed 2-D arrays',
+    'C20-m5': 'missed -> in C20 the fresh twin of a ConeCyl works with another number of integration threads than the shared object',
+    'C20-m6': 'missed -> C20 Panel calls alternate between an explicit integration grid and the default grid',
 }
 
 
@@ -56,6 +70,9 @@ def main():
                 res = json.load(open(os.path.join(d, fn)))
                 break
         suite = json.load(open(os.path.join(d, 'suite.json'))) if os.path.exists(os.path.join(d, 'suite.json')) else {}
+        det = json.load(open(os.path.join(d, 'detect.json'))) if os.path.exists(os.path.join(d, 'detect.json')) else {}
+        det = {k: v for k, v in det.items() if k.isdigit()}
+        dets = '%d/%d' % (sum(1 for v in det.values() if v == 1), len(det)) if det else '-'
         caught = [p for p, r in res.get('checks', {}).items() if r['rc'] == 1]
         first = ''
         for p in caught[:1]:
@@ -75,14 +92,17 @@ def main():
         }
         json.dump(meta, open(os.path.join(d, 'meta.json'), 'w'), indent=1)
         files = meta.get('files') or sorted(set(re.findall(r'^\+\+\+ b/(\S+)', open(os.path.join(d, 'patch.diff')).read(), re.M)))
-        rows.append('| %s | %s | %s | %s | %s | %s |' % (
+        meta.setdefault('confirmed_by_me', {})['detected_at_seeds'] = det
+        json.dump(meta, open(os.path.join(d, 'meta.json'), 'w'), indent=1)
+        rows.append('| %s | %s | %s | %s | %s | %s | %s |' % (
             sid, ', '.join(os.path.basename(f) for f in files), (meta.get('needs') or '').split('. ')[0][:170].replace('|', '/'),
             ('34 passed + the known collection error (= baseline)' if (suite.get('summary') or '').startswith('34 passed, 2 warnings, 1 error')
              else (suite.get('summary') or '?').replace('|', '/')[:60]),
             (first or ('**MISSED**' if res else 'not run')) + (' (on the tree before fix 8d0f8ea; now ineffective, see -rb)' if meta.get('status') else ''),
+            dets,
             (FIRST.get(sid) or ('re-based variant (mine) of %s' % sid[:-3] if sid.endswith('-rb') else 'caught as the checks stood')).replace('|', '/')))
-    table = ['| change | file | needs (first sentence of meta.json) | repo suite with the patch | caught by (first violation line) | first run |',
-             '|---|---|---|---|---|---|'] + rows
+    table = ['| change | file | needs (first sentence of meta.json) | repo suite with the patch | caught by (first violation line) | seeds caught (detect.json) | first run |',
+             '|---|---|---|---|---|---|---|'] + rows
     p = os.path.join(ROOT, 'DESIGN.md')
     s = open(p).read()
     a, b = '<!-- seeded-table:begin -->', '<!-- seeded-table:end -->'
